@@ -55,6 +55,18 @@ def label_index(variant):
     return _label_index[variant]
 
 
+UNUSUAL = ['"', "'", "it's", '&', '&amp;', '<', '>', 'a<b', '</s>', 'x>y', '%', '\\', '日本', 'é', '(', ')', '[', '{', 'a|b', '#',
+           '1,000', 'U.S.', ';', '--', '*', '_', 'a_b', '?', '!']
+
+
+def _unusual_words(rng, sentence):
+    """legal but unusual token texts (quotes, markup characters, brackets, non-ASCII)"""
+    if rng.random() < 0.4:
+        for i in range(len(sentence['words'])):
+            if rng.random() < 0.5:
+                sentence['words'][i] = rng.choice(UNUSUAL)
+
+
 def _split_records(text, fmt):
     """{sentence number: [records]} for the line-oriented formats"""
     header = re.compile(r'^# ID=(\d+)$' if fmt == 'conll' else r'^ID=(\d+), log probability=')
@@ -123,6 +135,7 @@ class C19(ParserSessionProp):
         style = rng.choice(['rich', 'rich', 'plain'])
         for s in spec['world']['sentences']:
             s['token_style'] = style
+            _unusual_words(rng, s)
         return spec
 
     def knobs(self, rng, tier, options):
